@@ -2,6 +2,7 @@ import Oracle.J
 import Eru.Misc.Docker
 import Eru.Misc.Keys
 import Eru.Misc.Chunks
+import Eru.Misc.Sender
 /- Oracle for the "misc" group (C24, C27, C29, C31): runs the model on each case, compares
    with the implementation's output and evaluates the specification on that output. -/
 namespace Oracle.Misc
@@ -166,5 +167,105 @@ def handle (j : Json) : Json :=
   | "world" => handleWorld j
   | _ => verdict id false Json.null [] "unknown-op"
 end NamesO
+
+/-! ### C29 -/
+namespace SendO
+open Eru.Misc.Chunks Eru.Misc.Sender
+
+def contentOf (len a b : Nat) : List Nat := (List.range len).map fun i => (a * i + b) % 256
+
+def hexVal (c : Char) : Nat :=
+  if c.isDigit then c.toNat - '0'.toNat else if 'a' ≤ c ∧ c ≤ 'f' then c.toNat - 'a'.toNat + 10 else c.toNat - 'A'.toNat + 10
+
+def unhex : List Char → List Nat
+  | a :: b :: r => (hexVal a * 16 + hexVal b) :: unhex r
+  | _ => []
+
+def dedup (l : List String) : List String := l.foldl (fun acc x => if acc.contains x then acc else acc ++ [x]) []
+
+def handleChunks (j : Json) : Json :=
+  let id := jget j "id"
+  let content := contentOf (jnat (jget j "len")) (jnat (jget j "a")) (jnat (jget j "b"))
+  let size := jnat (jget j "chunk")
+  let ids := jstrs (jget j "ids")
+  let impl := (jarr (jget (jget j "impl") "chunks"))
+  let implChunks := impl.map fun c => unhex (jstr (jget c "hex")).toList
+  match toChunksO size content with
+  | .ok model =>
+    let agree := implChunks == model
+    let metaOk := impl.all fun c => jstrs (jget c "ids") == ids && jstr (jget c "dst") == jstr (jget j "dst") &&
+      jnat (jget c "size") == content.length && jint (jget c "mode") == jint (jget j "mode") &&
+      jint (jget c "uid") == jint (jget j "uid") && jint (jget c "gid") == jint (jget j "gid")
+    let want := if content.length = 0 then 1 else (content.length + size - 1) / size
+    let spec := (if implChunks.flatten == content then [] else ["C29:chunks-concat"]) ++
+      (if implChunks.all (fun c => c.length ≤ size) then [] else ["C29:chunk-bound"]) ++
+      (if implChunks.length == want then [] else [if implChunks.isEmpty then "C29:chunk-count:empty-file-no-chunk" else "C29:chunk-count"]) ++
+      (if metaOk then [] else ["C29:chunk-meta"])
+    verdict id agree (Json.arr (model.map (fun c => ji c.length)).toArray) spec
+      ("chunks:" ++ (if content.length = 0 then "empty" else if content.length % size = 0 then "exact" else "ragged"))
+  | _ => verdict id false Json.null [] "chunks:diverge"
+
+def behOfJson (j : Json) : Beh :=
+  let l := jint (jget j "limit")
+  { missing := jbool (jget j "missing"), limit := if l < 0 then none else some l.toNat, fail := jbool (jget j "fail") }
+
+def errName (b : Beh) : String := if b.missing then "target" else if b.fail then "engine" else ""
+
+def handleSend (j : Json) : Json :=
+  let id := jget j "id"
+  let len := jnat (jget j "len")
+  let content := contentOf len (jnat (jget j "a")) (jnat (jget j "b"))
+  let size := jnat (jget j "chunk")
+  let ids := dedup (jstrs (jget j "ids"))
+  let behs := ids.map fun i => behOfJson (jget (jget j "behs") i)
+  let dst := jstr (jget j "dst")
+  let impl := jget j "impl"
+  match toChunksO size content with
+  | .ok chunks =>
+    let s0 := initState ids.length chunks
+    let fuel := 20 * (s0.todo.length + ids.length + 2) + 4 * (len + 1) * ids.length + 100
+    let s1 := run behs fuel s0
+    let s2 := runRev behs fuel s0
+    let outcome (s : State) : List (String × List Bool × Nat) :=
+      (ids.zip s.ts).map fun (i, t) => (i, t.results, t.got.length)
+    let modelFinished := final s1 && final s2 && quiescent s1
+    let schedOk := outcome s1 == outcome s2
+    let mj := Json.mkObj [("finished", modelFinished), ("schedule_independent", schedOk),
+      ("targets", Json.arr ((outcome s1).map fun (i, r, g) => Json.mkObj [("id", i), ("results", Json.arr (r.map Json.bool).toArray), ("got_len", ji g)]).toArray)]
+    if !jbool (jget impl "finished") then
+      verdict id (!modelFinished) mj ["C29:not-finished"] "send:hang"
+    else
+      let results := (jarr (jget impl "results")).map fun r => (jstr (jget r "id"), jstr (jget r "path"), jstr (jget r "err"))
+      let ib := ids.zip behs
+      let wantResults := (ib.map fun (i, b) => (i, (if b.missing then "" else dst), errName b)).mergeSort (fun a b => a.1 ≤ b.1)
+      let resultsOk := results.mergeSort (fun a b => a.1 ≤ b.1) == wantResults
+      let tg := jget impl "targets"
+      let contentOk := ib.all fun (i, b) =>
+        if b.missing then !jhas tg i
+        else jhas tg i && jnat (jget (jget tg i) "got_len") == (expectedGot b content).length && jbool (jget (jget tg i) "prefix_ok")
+          && jnat (jget (jget tg i) "calls") == 1
+      let wantArgs := Json.arr #[Json.str dst, ji len, jget j "uid", jget j "gid", jget j "mode"]
+      let metaOk := ib.all fun (i, b) => b.missing || (jget (jget tg i) "args").compress == wantArgs.compress
+      let spec := (if resultsOk then [] else ["C29:results"]) ++ (if contentOk then [] else ["C29:content"]) ++
+        (if metaOk then [] else ["C29:owner-mode-size"])
+      -- correspondence: the model's final state (any schedule) predicts the same results and byte counts
+      let modelResultsOk := (ids.zip s1.ts).all fun (i, t) =>
+        let b := behOfJson (jget (jget j "behs") i)
+        t.results == [expectedErr b] && t.got == expectedGot b content &&
+        (b.missing || jnat (jget (jget tg i) "got_len") == t.got.length)
+      let agree := modelFinished && schedOk && modelResultsOk && resultsOk
+      let cls := "send:" ++ (if len = 0 then "empty" else if chunks.length > 11 then "big" else "small") ++
+        (if behs.any (fun b => b.missing) then "+missing" else "") ++
+        (if behs.any (fun b => !b.missing && b.limit.isSome) then "+abort" else "") ++
+        (if (jstrs (jget j "ids")).length != ids.length then "+dup" else "")
+      verdict id agree mj spec cls
+  | _ => verdict id false Json.null [] "send:diverge"
+
+def handle (j : Json) : Json :=
+  match jstr (jget j "op") with
+  | "chunks" => handleChunks j
+  | "send" => handleSend j
+  | _ => verdict (jget j "id") false Json.null [] "unknown-op"
+end SendO
 
 end Oracle.Misc
